@@ -36,6 +36,17 @@ def make_case(rng, i):
     prof["async_mode"] = rng.choice(["none", "none", "none", "all", "half"])
     spec = gen.gen_spec(rng, prof)
     early = [p for p in spec["providers"] if p not in ("sm", "model")]
+    # per-instance hooks: callbacks assigned on one listener/model OBJECT only (e.g. in __init__); the
+    # other instance's object of the same class does not have them
+    hosts = [p for p in spec["providers"] if p != "sm"]
+    if hosts and rng.random() < 0.5:
+        names = ["after_transition", "before_transition", "on_enter_state", "on_exit_state"] + [f"on_{e}" for e in spec["events"]]
+        for j in range(rng.randint(1, 3)):
+            host, nm = rng.choice(hosts), rng.choice(names)
+            if any(cb["name"] == nm and cb["provider"] == host for cb in spec["cbs"].values()):
+                continue
+            spec["cbs"][f"ci{j}"] = {"name": nm, "provider": host, "kind": "method", "async": False,
+                                     "inst": rng.choice(["main", "other"]), "script": {"ret": "sent"}}
     steps = []
     kinds = set()
     pre = rng.random() < 0.0
@@ -105,7 +116,13 @@ def extra_check(case, run, log, ck, fault):
         return ("C16.other-definition-raised", f"{bad['action']}: {bad['exc']}", bad["n"])
     if not other_log:
         return None
-    rej, ck2 = check_log(case["scenario"].spec, other_log)
+    shared = next((s_.get("share") for s_ in case["scenario"].steps if s_.get("op") == "other" and s_.get("share")), None)
+
+    def prep(c):
+        c.role = "other"
+        c.shared_provider = shared
+
+    rej, ck2 = check_log(case["scenario"].spec, other_log, prepare=prep)
     case["_counters"]["other_instance_events"] = ck2.stats["events_executed"] + ck2.stats["not_allowed"] + ck2.stats["ignored"]
     if rej is not None:
         return ("C16.other-instance:" + rej.rule, "the interfering instance deviates from the reference: " + rej.detail, None)
